@@ -30,3 +30,4 @@ open Cst.C02
 #print axioms Cst.Gen.tk_siblings
 #print axioms Cst.Gen.tk_green
 #print axioms Cst.Gen.tk_kinds
+#print axioms Cst.Gen.nd_accessors
